@@ -197,8 +197,10 @@ def check_matrix(case, ctx):
         if len(labels) > T:
             continue
         try:
-            g32 = np.asarray(get_line_confidence(l32, np.asarray(labels)), dtype=float)
-            g64 = np.asarray(get_line_confidence(line, np.asarray(labels)), dtype=float)
+            # one alignment for both (with tied alignments float32 round-off may legitimately pick another optimum)
+            al = None if T == len(labels) else align_text(-logp, np.asarray(labels), 2)
+            g32 = np.asarray(get_line_confidence(l32, np.asarray(labels), aligned_letters=al), dtype=float)
+            g64 = np.asarray(get_line_confidence(line, np.asarray(labels), aligned_letters=al), dtype=float)
         except ValueError:
             continue
         ctx.executed(2)
